@@ -44,6 +44,10 @@ type Dialogue struct {
 	Seg        devsim.Seg     `json:"seg"`
 	StallAt    int            `json:"stall_at"` // -1: no stall; else the transport delivers exactly this many bytes
 	TimeoutMS  int            `json:"timeout_ms"`
+	// Loss: the connection is lost during the login exchange: "eof" | "err" | "err-timedout" (reads
+	// deliver exactly LossAt bytes, then fail) | "write" (the LossAt-th write, 1-based, and later fail).
+	Loss   string `json:"loss,omitempty"`
+	LossAt int    `json:"loss_at,omitempty"`
 	// derived from the fields above (Analyse recomputes them; stored for the reader of a replay file)
 	Expect     string `json:"expect"`
 	NeedOffset int    `json:"need_offset"`
